@@ -212,3 +212,4 @@ OBLIGATIONS.append(Obl("ot_fixpoint", ot_fixpoint,
 
 # quick tier: entries added for other properties' sake run in the thorough tier only here
 demote(OBLIGATIONS, ['seq_hitags', 'seq_hitags.E', 'seq_wide', 'seq_optnull', 'seqof_choice_cons', 'choice_cons'])
+demote(OBLIGATIONS, ['seq.I', 'seq.EE', 'set.E', 'set.EE', 'seqof_int.I', 'seqof_int.EE', 'setof_octs.I', 'setof_octs.EE'])
